@@ -89,7 +89,16 @@ Listen == [do |-> "listen", group |-> "default", id |-> "@SID@"]
 
 \* what every accepted entity must survive: background cycles, a hard kill, a restart on the
 \* same database, more background cycles
-Aftermath(ms) == << Sleep(ms), Probe("after-cycles"), Db, Kill, Start, Probe("after-restart"), Sleep(ms), Probe("after-restart-cycles"), Db >>
+\* ... and after which the background workers must still do their work for everybody else: a
+\* canary promise routed to a listener of its own is dispatched and, its timeout being short,
+\* timed out (a wedged dispatch or sweep leaves the process up and answering, so a probe is not enough)
+Canary(k) ==
+  << [do |-> "listen", group |-> "canary", id |-> "@SID@"],
+     Http("canary-create", "POST", "/promises", "{\"id\":\"canary-" \o k \o "-@SID@\",\"timeout\":@NOW+300@,\"tags\":{\"resonate:invoke\":\"poll://canary/@SID@\"}}"),
+     Sleep(800),
+     [do |-> "received", name |-> "canary-" \o k, group |-> "canary", id |-> "@SID@"],
+     [do |-> "rows", name |-> "canary-" \o k] >>
+Aftermath(ms) == << Sleep(ms), Probe("after-cycles"), Db >> \o Canary("1") \o << Kill, Start, Probe("after-restart"), Sleep(ms), Probe("after-restart-cycles"), Db >> \o Canary("2")
 
 PromiseFields == << <<"id", "\"@SID@\"">>, <<"timeout", "@NOW+400@">>,
                     <<"param", "{\"headers\":{\"h\":\"v\"},\"data\":\"ZGF0YQ==\"}">>, <<"tags", "{\"a\":\"b\"}">> >>
